@@ -80,18 +80,33 @@ def search(ctx):
 def _report(ctx, issue):
   K = _c01._k1()
   rep = issue['replay']
+  kind = issue['kind']
   if rep.get('history') is not None and rep.get('bundle') is not None:
+    if kind == 'redo-differs' and issue.get('trace_index') is None:
+      probe = {'kind': kind}
+      K.refine_with_code(probe, K.code_of_bundle(ctx, rep['history'], rep['bundle']))
+      kind = probe['kind']
     try:
-      h, b = K.shrink_issue(rep['history'], rep['bundle'], PROP, issue['kind'])
-      rep = {'history': h, 'bundle': b, 'kind': issue['kind']}
+      by_code = kind.endswith(':recalculation-after-redo')
+      h, b = K.shrink_issue(rep['history'], rep['bundle'], PROP, 'redo-differs' if by_code else kind)
+      if by_code:
+        probe = {'kind': 'redo-differs'}
+        K.refine_with_code(probe, K.code_of_bundle(ctx, h, b))
+        if probe['kind'] != kind:
+          h, b = rep['history'], rep['bundle']
+      rep = {'history': h, 'bundle': b, 'kind': kind}
     except Exception:
       pass
-  ctx.violation(issue['kind'], issue['what'], rep)
+  ctx.violation(kind, issue['what'], rep)
 
 
 def replay(ctx, w):
-  return _c01._k1().replay_witness(w, PROP)
+  return _c01._k1().replay_witness(w, PROP, ctx)
 
 
-MATCHERS = {}
+def _recalculation(violation, entry):
+  return violation.get('kind') == 'redo-differs:recalculation-after-redo'
+
+
+MATCHERS = {'recalculation': _recalculation}
 DISABLED = True
